@@ -19,6 +19,7 @@ Model and C must agree on tree-or-error; a difference in the error CODE only is 
 the harness is reported as a disagreement of kind 'crash'."""
 import base64
 import hashlib
+import os
 import re
 import sys
 
@@ -774,10 +775,57 @@ def correspond_replay(seed=1, quick=True):
     HT = common.build_harness("xmlfront_harness")
     D = common.build_driver("XmlFront")
     cs = replay_cases(seed, quick)
+    # round 5 (C02f_text_split_invariant): the same list with its character-data events delivered in random non-empty
+    # pieces.  Base lists: the random lists above, the event logs of real documents, vCard texts in <Data>.
+    # kind "split": no piece is a lone LF -> the C must end in the same state as for the unsplit list;
+    # kind "split-lf": pieces that are a lone LF on purpose -> only C == model (the pieces are visible: LF -> CR LF).
+    rng = common.Rng(seed, 7302)
+    base = [(k, evs) for k, evs in cs if k == "random"]
+    docs = cases(seed, True)
+    dh = [d.hex() if d else "-" for _, d in docs]
+    da, _ = common.run_lines(HT, dh, shards=min(common.NPROC, max(1, len(dh) // 4)))
+    emb_hex = ("446576496e66", "4d676d7454726565")
+    logs = []
+    for (k, d), a in zip(docs, da):
+        p = split_answer(a)
+        if p is None or not p[2].startswith("T OK ") or any(h in p[0] for h in emb_hex):
+            continue
+        toks = p[0].split(" ")
+        if len(toks) > 4000:
+            continue
+        logs.append(("log:" + k.split("(")[0], _log_events(toks)))
+    for i in range(len(logs) - 1, 0, -1):
+        j = rng.below(i + 1)
+        logs[i], logs[j] = logs[j], logs[i]
+    base += logs[:(200 if quick else 1500)]
+    vc = [b"BEGIN:VCARD\nVERSION:2.1\nN:a;b\nEND:VCARD\n", b"\n", b"\n\n", b"a\nb", b"x", b"\r\n", b"text\n"]
+    for mt in (b"text/x-vcard", b"text/x-vcalendar", b"text/clear", b"text/directory;profile=vCard", b"application/vnd.syncml-devinf+xml", None):
+        for cmd in (b"Add", b"Replace", b"Put"):
+            for txt in vc:
+                for cdata in (False, True):
+                    evs = [ev_start(b"SyncML"), ev_start(cmd)]
+                    if mt is not None:
+                        evs += [ev_start(b"Meta"), ev_start(b"Type"), ev_chars(mt), ev_end(b"Type"), ev_end(b"Meta")]
+                    evs += [ev_start(b"Item"), ev_start(b"Data")] + (["["] if cdata else []) + [ev_chars(txt)] + (["]"] if cdata else [])
+                    evs += [ev_end(b"Data"), ev_end(b"Item"), ev_end(cmd), ev_end(b"SyncML")]
+                    base.append(("vcard", evs))
+    split_pairs = []                                       # (index of the base list, index of the split list, lone LF allowed)
+    for k, evs in base:
+        if not any(e.startswith("C ") and len(e) > 4 for e in evs):
+            continue
+        bi = len(cs)
+        cs.append(("base:" + k, evs))
+        for lf in (False, True):
+            for _ in range(1 if quick else 3):
+                sp = _split_texts(evs, rng, lf)
+                if sp is not None:
+                    split_pairs.append((bi, len(cs), lf))
+                    cs.append((("split-lf:" if lf else "split:") + k, sp))
     lines = [" ".join(evs) for _, evs in cs]
     ans, crashes = common.run_lines(H, lines, shards=min(common.NPROC, max(1, len(lines) // 4)))
     disagreements, samples = [], []
-    dist = {"kinds": {}, "errors": {}, "sticky_checked": 0, "events": 0}
+    dist = {"kinds": {}, "errors": {}, "sticky_checked": 0, "events": 0, "split": {"pairs": 0, "pieces": 0, "same_as_unsplit": 0,
+                                                                                   "lone_lf_pairs": 0, "lone_lf_differs": 0}}
     for c in crashes:
         lo, hi = c["range"]
         for i in range(lo, hi):
@@ -836,7 +884,89 @@ def correspond_replay(seed=1, quick=True):
                                   "what": "the C changed its state after an error was recorded (strict sticky-error oracle)"})
         if q != m:
             disagreements.append({"kind": "replay:" + k, "doc_hex": "", "events": lines[i][:3000], "c": q[:1500], "model": m[:1500]})
+    for bi, si, lf in split_pairs:
+        if ans[bi] is None or ans[si] is None:
+            continue
+        qb = ans[bi].partition(" | STICKY ")[0]
+        qs = ans[si].partition(" | STICKY ")[0]
+        npieces = sum(1 for e in cs[si][1] if e.startswith("C ")) - sum(1 for e in cs[bi][1] if e.startswith("C "))
+        if lf:
+            dist["split"]["lone_lf_pairs"] += 1
+            if qb != qs:
+                dist["split"]["lone_lf_differs"] += 1
+            continue
+        dist["split"]["pairs"] += 1
+        dist["split"]["pieces"] += npieces
+        if qb == qs:
+            dist["split"]["same_as_unsplit"] += 1
+        else:
+            disagreements.append({"kind": "split:" + cs[si][0], "doc_hex": "", "events": lines[si][:3000], "c": qs[:1500], "model": qb[:1500],
+                                  "what": "the C ends in another state when a text is delivered in pieces (model column: the C on the unsplit list)"})
     return {"evaluations": evaluations, "disagreements": disagreements, "samples": samples, "distribution": dist}
+
+
+def _log_events(toks):
+    """the event log of the harness (one flat token list) cut into events"""
+    out, i = [], 0
+    while i < len(toks):
+        t = toks[i]
+        if t == "X":
+            n = 3
+        elif t == "D":
+            n = 4
+        elif t == "S":
+            n = 4 + 2 * int(toks[i + 3])
+        elif t == "E":
+            n = 3
+        elif t == "C":
+            n = 2
+        elif t in ("[", "]"):
+            n = 1
+        elif t == "P":
+            n = 3
+        else:
+            raise ValueError("event log token %r" % t)
+        out.append(" ".join(toks[i:i + n]))
+        i += n
+    return out
+
+
+def _split_texts(evs, rng, lone_lf):
+    """every character-data event of two octets or more cut into random non-empty pieces; lone_lf: an LF is cut out as a
+    piece of its own wherever there is one (else no piece is exactly one LF).  None when nothing could be cut."""
+    out, cut = [], False
+    for e in evs:
+        if not (e.startswith("C ") and len(e) > 4):
+            out.append(e)
+            continue
+        b = bytes.fromhex(e[2:])
+        pieces, cur = [], b""
+        i = 0
+        while i < len(b):
+            cur += b[i:i + 1]
+            i += 1
+            if i < len(b) and (rng.chance(1, 3) or (lone_lf and (b[i:i + 1] == b"\n" or cur == b"\n"))):
+                pieces.append(cur)
+                cur = b""
+        pieces.append(cur)
+        if not lone_lf:
+            # join a lone LF with a neighbour
+            j = 0
+            while j < len(pieces):
+                if pieces[j] == b"\n" and len(pieces) > 1:
+                    if j + 1 < len(pieces):
+                        pieces[j:j + 2] = [pieces[j] + pieces[j + 1]]
+                    else:
+                        pieces[j - 1:j + 1] = [pieces[j - 1] + pieces[j]]
+                        j -= 1
+                else:
+                    j += 1
+        elif not any(x == b"\n" for x in pieces):
+            pieces = [b]
+        if len(pieces) > 1:
+            cut = True
+        out += [ev_chars(x) for x in pieces]
+    return out if cut else None
 
 
 def correspond_inverse(seed=1, quick=True):
@@ -851,12 +981,14 @@ def correspond_inverse(seed=1, quick=True):
     hexes = [d.hex() if d else "-" for _, d in cs]
     ans, _ = common.run_lines(HT, hexes, shards=min(common.NPROC, max(1, len(hexes) // 4)))
     trees = {}
+    sources = []                                      # (kind, document, event log, tree body) of every accepted document
     for (k, d), a in zip(cs, ans):
         p = split_answer(a)
         if p is None or not p[2].startswith("T OK ") or "!" in p[2]:
             continue
         body = p[2][5:].split(" ", 1)[1]              # drop the charset: "<lang> <n> node*"
         trees.setdefault(body, k)
+        sources.append((k, d, p[0], body))
     bodies = list(trees)
     mo, _ = common.run_lines(D, ["V " + b for b in bodies], shards=min(common.NPROC, max(1, len(bodies) // 8)))
     todo = [(b, o[6:].strip()) for b, o in zip(bodies, mo) if o is not None and o.startswith("EVS 1")]
@@ -885,7 +1017,52 @@ def correspond_inverse(seed=1, quick=True):
         if q[1] != "0" or got != b:
             disagreements.append({"kind": "inverse:" + k, "doc_hex": "", "events": ev[:3000], "c": a[:1500], "model": b[:1500],
                                   "what": "the C callbacks fed with events_of(tree) did not rebuild the tree"})
-    return {"evaluations": len(todo), "disagreements": disagreements, "samples": [{"tree": b[:200], "events": ev[:200]} for b, ev in todo[:6]],
+    # Goal 2 of round 5: the predicate on the SOURCE documents.  evs_clause (extracted, Model/XmlFrontCanonEvents.v) on
+    # the events Expat delivered for each accepted document: which fraction is canonical, which clause excludes the rest;
+    # and the theorem C02f_image_canonical against the C: no clause violated => the C's tree satisfies root_canon.
+    ko, _ = common.run_lines(D, ["K " + ev for _, _, ev, _ in sources], shards=min(common.NPROC, max(1, len(sources) // 8)))
+    canon_of = {b: (o is not None and o.startswith("EVS 1")) for b, o in zip(bodies, mo)}
+    emb_bodies = [b for b in bodies if " R " in (" " + b)]
+    wo, _ = common.run_lines(D, ["W " + b for b in emb_bodies], shards=1)
+    canon_all_of = {b: (o is not None and o.startswith("W 1")) for b, o in zip(emb_bodies, wo)}
+    corpus_name = {}
+    for f in convcases.corpus_xml():
+        corpus_name.setdefault(hashlib.sha256(open(f, "rb").read()).digest(), os.path.relpath(f, common.REPO) if f.startswith(common.REPO) else f)
+    src = {"accepted_documents": len(sources), "evs_canon": 0, "evs_canon_modulo_embedded": 0, "excluded_by_clause": {},
+           "excluded_by_kind": {}, "canon_by_kind": {}, "excluded_documents": [], "clause_fired_but_tree_canonical": 0,
+           "with_added_cdata": 0, "with_embedded": 0}
+    for (k, d, ev, b), o in zip(sources, ko):
+        kk = k.split("(")[0]
+        if o is None or not o.startswith("K "):
+            disagreements.append({"kind": "clause-driver:" + k, "doc_hex": d.hex()[:2000], "events": ev[:1500], "c": "", "model": str(o)})
+            continue
+        k_all, k_none = (int(x) for x in o.split()[1:3])
+        has_emb = " R " in (" " + b)
+        if has_emb:
+            src["with_embedded"] += 1
+        if k_all == 0:
+            src["evs_canon_modulo_embedded"] += 1
+            if has_emb and not canon_all_of.get(b, False):
+                disagreements.append({"kind": "image-canonical-embedded:" + k, "doc_hex": d.hex()[:2000], "events": ev[:1500], "c": b[:1500], "model": o,
+                                      "what": "no clause of evs_canon (every embedded tree accepted) is violated but the C's tree does not satisfy root_canon"})
+        if k_none == 0:
+            src["evs_canon"] += 1
+            src["canon_by_kind"][kk] = src["canon_by_kind"].get(kk, 0) + 1
+            if not canon_of.get(b, False):
+                disagreements.append({"kind": "image-canonical:" + k, "doc_hex": d.hex()[:2000], "events": ev[:1500], "c": b[:1500], "model": o,
+                                      "what": "no clause of evs_canon is violated but the C's tree does not satisfy root_canon"})
+        else:
+            cl = str(k_none)
+            src["excluded_by_clause"][cl] = src["excluded_by_clause"].get(cl, 0) + 1
+            src["excluded_by_kind"].setdefault(kk, {})
+            src["excluded_by_kind"][kk][cl] = src["excluded_by_kind"][kk].get(cl, 0) + 1
+            if len(src["excluded_documents"]) < 60 and (kk in ("corpus",) or src["excluded_by_kind"][kk][cl] <= 2):
+                src["excluded_documents"].append({"kind": k, "clause": k_none, "clause_embedded_accepted": k_all,
+                                                  "file": corpus_name.get(hashlib.sha256(d).digest(), ""), "doc": d[:120].decode("latin-1")})
+            if canon_of.get(b, False):
+                src["clause_fired_but_tree_canonical"] += 1
+    dist["source_documents"] = src
+    return {"evaluations": len(todo) + len(sources), "disagreements": disagreements, "samples": [{"tree": b[:200], "events": ev[:200]} for b, ev in todo[:6]],
             "distribution": dist}
 
 
